@@ -18,7 +18,9 @@ ASSUMPTIONS = ['rendering of a document (token sequence -> text) is done by the 
                'well-formed text: no tabs, no trailing comments, no space between a keyword and "(", declarations INPUT/OUTPUT in upper case']
 
 IDENTS = ['input1', 'OUTPUTx', 'Input_a', '9x', 'a@b', 'vdd1', 'AND', 'buff', 'x.y', 'N_12', 'output', 'inputs', 'OUTPUT_2', 'vdd_x',
-          'g[3]', 'nOt', 'INPUT0', 'o', 'Z', 'k9', 'in', 'out']
+          'g[3]', 'nOt', 'INPUT0', 'o', 'Z', 'k9', 'in', 'out',
+          # labels that ARE keywords / operator names (any letter case), not merely begin with them
+          'input', 'INPUT', 'Output', 'OUTPUT', 'vdd', 'VDD', 'not', 'BUFF', 'Xor']
 
 
 def design(tier, seed):
@@ -44,7 +46,8 @@ def sources(tier, seed, ctx):
         outs = gen.pick_outputs(r, ni, len(gs), kind=['last', 'some', 'dup', 'withinput', 'many', 'none'][n % 6])
         srcs.append({'k': 'rt' if n % 2 == 0 else 'doc', 'net': [ni, gs], 'outs': outs, 'ls': r.randrange(10**6)})
     # deep circuits: one path longer than the interpreter's recursion limit, printed, saved, parsed back
-    for depth in ([1500] if tier == 'quick' else [1500, 4000]):
+    # (5000 gates: a file of more than 64 KiB; 20000: more than 256 KiB)
+    for depth in ([1500, 5000] if tier == 'quick' else [1500, 5000, 20000]):
         srcs.append({'k': 'rt', 'deep': depth, 'ls': 1 + depth})
         srcs.append({'k': 'rt', 'deep': depth, 'ls': 3 * depth, 'rev': True})
     # every line order (TLC-enumerated permutations, Perms.tla) of fixed small documents
